@@ -1,7 +1,8 @@
 SPECIFICATION Spec
 CONSTANTS
-  MaxDepth = 2
+  MaxDepth = 1
   MaxRows = 2
+  MaxRows2 = 1
   NVals = 2
   WithEmpty = FALSE
   DevNoDedup = FALSE
